@@ -38,12 +38,21 @@ pub struct ShardResult {
     pub caps: Vec<String>,
     pub outcomes: std::collections::BTreeSet<u64>,
     pub max_violations: usize,
+    /// fingerprints listed as known findings for this property: counted separately, never exhaust the violation budget
+    pub known_fps: std::collections::BTreeSet<String>,
 }
 impl ShardResult {
     pub fn new() -> Self { ShardResult { max_violations: 20, ..Default::default() } }
     pub fn count(&mut self, k: &str, n: u64) { *self.counters.entry(k.to_string()).or_insert(0) += n; }
     pub fn sample(&mut self, v: Value) { if self.samples.len() < 4 { self.samples.push(v); } }
     pub fn violation(&mut self, fingerprint: &str, what: String, case: Value) {
+        if self.known_fps.contains(fingerprint) {
+            self.count("known_finding_hits", 1);
+            if !self.violations.iter().any(|v| v.fingerprint == fingerprint) {
+                self.violations.push(Violation { fingerprint: fingerprint.to_string(), what, case });
+            }
+            return;
+        }
         self.count("violations_total", 1);
         // keep at most a few per fingerprint, simplest first (callers enumerate simplest-first)
         let same = self.violations.iter().filter(|v| v.fingerprint == fingerprint).count();
@@ -279,7 +288,7 @@ fn merge(m: &mut ShardResult, v: &Value) {
     for x in v["violations"].as_array().cloned().unwrap_or_default() {
         let fp = x["fingerprint"].as_str().unwrap_or("").to_string();
         let same = m.violations.iter().filter(|v| v.fingerprint == fp).count();
-        if same < 3 && m.violations.len() < m.max_violations {
+        if same < 3 && m.violations.len() < m.max_violations + 20 {
             m.violations.push(Violation { fingerprint: fp, what: x["what"].as_str().unwrap_or("").to_string(), case: x["case"].clone() });
         }
     }
@@ -352,6 +361,7 @@ pub fn finish(meta: &CheckMeta, tier: &str, seed: u64, merged: ShardResult, t0: 
 pub fn worker_main(ctx: &Ctx, f: impl FnOnce(&Ctx, &mut ShardResult)) {
     if let Ok(p) = std::env::var("VF_CRASH_FILE") { install_crash_capture(std::path::Path::new(&p), 60); }
     let mut r = ShardResult::new();
+    for (st, p, fp, _) in known_findings() { if st == "known" && p == ctx.id { r.known_fps.insert(fp); } }
     f(ctx, &mut r);
     println!("{}", serde_json::to_string(&r.to_json()).unwrap());
 }
